@@ -47,10 +47,22 @@ CHECKS.update({
           'one shot (inherent in its word-wise definition; a repair would change existing checksums). Little-endian model.'},
 })
 
+CHECKS.update({
+ 'C03': {
+  'text': 'Every operation of the C ring (ring.h, ring_counter.h) is proved, for a symbolic 32-bit size (every size >= 2, not only powers of two), every reachable '
+          '(head, tail) and every buffer content, to preserve the representation invariant and to transform the whole reference-queue view exactly as the reference '
+          'operation does (ghost index over the view and over the buffer): putc/getc/read/write are FIFO, lossless and byte-transparent for all 256 values, full/empty '
+          'reject without change, avail + room == size - 1, indices stay in [0,size). ring_read/ring_write/ring_for_each loops are closed by injected invariants. The typed '
+          'igris::ring<T> and cyclic_buffer<T> (extracted to C at T = char) are proved consistent with their backing array and their relative accessors (last, fixup_index, '
+          'distance, set_last_index, i-th previous sample) address the reference elements for every head position.',
+  'ref': 'C03', 'technique': 'CBMC full-domain contracts + loop contracts on ring.h / ring_counter.h; cxx2c-extracted igris::ring and cyclic_buffer',
+  'note': 'Induction over operation histories is the usual meta-argument. Assumptions (call-site preconditions): bias <= size, size <= 2^31 for the int-returning bulk '
+          'operations, near-range arguments for the fix-up loops. get_last / emplace / non-trivial element lifetimes of the typed ring are not under contract (PROPERTY.json).'},
+})
 WIP = 'no proof unit built yet in this session (work in progress; see DESIGN.md for the planned contracts)'
 NOT_APPLICABLE = {
  'C08': WIP,
- 'C01': WIP, 'C02': WIP, 'C03': WIP, 'C06': WIP, 'C07': WIP, 'C10': WIP, 'C11': WIP,
+ 'C01': WIP, 'C02': WIP, 'C06': WIP, 'C07': WIP, 'C10': WIP, 'C11': WIP,
  'C12': WIP, 'C14': WIP, 'C15': WIP, 'C18': WIP, 'C19': WIP,
  'C09': 'quantifies over a family of C++ types assembled by template metaprogramming (partial specialisations, SFINAE, '
         'concepts, std::tuple/map/string, virtual archives); CBMC has no usable C++ front end and the mechanical C '
